@@ -20,7 +20,9 @@ from yowsup.layers.protocol_iq import YowIqProtocolLayer
 ID = "C11"
 LEVEL = "exploration"
 RULE = ("generated: 2-4 sender tasks x 1-4 stanzas each (sizes 1 B - 3 KiB; iq / receipt / presence / text message), variant = "
-        "transport stack only or transport + protocol layers + interface-layer application, optionally the real keep-alive thread "
+        "transport stack with one application layer on top (its lock serialises the application's threads; the handshake and "
+        "keep-alive threads still enter further down), the bare transport stack network/segments/noise/coder entered through "
+        "stack.send() by all threads side by side, or transport + protocol layers + interface-layer application; optionally the real keep-alive thread "
         "firing on a virtual clock tick, optionally senders started while the handshake is still in progress (round 0/1), and a "
         "schedule of up to 400 choice integers resolved at lock/queue operations and function calls of the anchored files (thorough: "
         "also at every line of the layer base class, noise layer and segments layer). Non-trivial = the executed schedule switched "
@@ -50,7 +52,7 @@ def upper_layers(variant):
 
 def make_stanza(variant, kind, ident, size):
     pad = ("x" * size)
-    if variant == "core":
+    if variant in ("core", "bare"):
         if kind == "iq":
             return ProtocolTreeNode("iq", {"id": ident, "type": "get", "xmlns": "w:p", "pad": pad})
         if kind == "presence":
@@ -76,10 +78,16 @@ def make_stanza(variant, kind, ident, size):
 def run_case(case):
     out = Outcome()
     variant = case["variant"]
-    ping = bool(case.get("ping")) and variant != "core"
+    ping = bool(case.get("ping")) and variant == "proto"
     props = {YowIqProtocolLayer.PROP_PING_INTERVAL: 1 if ping else 0}
-    rig = TR.Rig(choices=case.get("choices", ()), upper=upper_layers(variant), props=props,
-                 trace_lines=bool(case.get("trace_lines")), preempt=case.get("preempt"))
+    if variant == "bare":
+        # network, segments, noise, coder and nothing above: the application threads call stack.send(), i.e. they enter the
+        # topmost layer's send() side by side (no layer above it whose lock would serialise them)
+        rig = TR.Rig(choices=case.get("choices", ()), upper=(), core_layers=YowStackBuilder.getCoreLayers()[:4], props=props,
+                     trace_lines=bool(case.get("trace_lines")), preempt=case.get("preempt"))
+    else:
+        rig = TR.Rig(choices=case.get("choices", ()), upper=upper_layers(variant), props=props,
+                     trace_lines=bool(case.get("trace_lines")), preempt=case.get("preempt"))
     try:
         return _run(case, out, rig, variant, ping)
     finally:
@@ -100,7 +108,10 @@ def _run(case, out, rig, variant, ping):
                 ident = "s%d-%d" % (ti, k)
                 stanza = make_stanza(variant, kind, ident, size)     # harness errors must not look like refused sends
                 try:
-                    rig.top.toLower(stanza)
+                    if variant == "bare":
+                        rig.stack.send(stanza)
+                    else:
+                        rig.top.toLower(stanza)
                     results[ident] = "ok"
                     sent_order.setdefault(ti, []).append(ident)
                 except S._Stop:
@@ -115,6 +126,11 @@ def _run(case, out, rig, variant, ping):
 
     problems = []
     rig.post("connect")
+    if variant == "bare":
+        from yowsup.layers import YowLayerEvent
+        from yowsup.layers.auth.layer_authentication import YowAuthenticationProtocolLayer
+        rig.run()
+        rig.sched.spawn("auth", lambda: rig.stack.broadcastEvent(YowLayerEvent(YowAuthenticationProtocolLayer.EVENT_AUTH, passive=False)))
     if start_round == 0:
         spawn_senders()
     rig.run()
@@ -131,7 +147,10 @@ def _run(case, out, rig, variant, ping):
         spawn_senders()
     if not problems:
         problems += rig.shuttle()
-    if variant != "core" and not problems:
+    if variant == "proto" and not problems and rig.server.state != "transport":
+        out.fail("stream", "stream:login_incomplete", {"state": rig.server.state, "stuck": rig.stuck_tasks()})
+        return out
+    if variant == "proto" and not problems:
         rig.server.send_frame(R.encode(("success", {"creation": "1", "props": "2", "t": "3", "location": "x"}, None)))
         problems += rig.shuttle()
     if ping:
@@ -194,7 +213,7 @@ def _run(case, out, rig, variant, ping):
     if held:
         out.fail("deadlock", "lock_still_held", {"locks": held[:4]})
         return out
-    out.info = {"nt": rig.sched.in_call_switches > 0 and len(case["tasks"]) >= 2}
+    out.info = {"nt": rig.sched.in_call_switches > 0 and len(case["tasks"]) >= 2, "steps": rig.sched.steps}
     out.label("switch_in_call" if rig.sched.in_call_switches else "no_switch_in_call")
     return out
 
@@ -226,7 +245,7 @@ def case_strategy(tier):
         n = draw(st.sampled_from([0, 0, 20, 120, 400]))
         case = {
             "sub": "senders",
-            "variant": draw(st.sampled_from(["core", "core", "proto"])),
+            "variant": draw(st.sampled_from(["core", "bare", "bare", "proto"])),
             "tasks": draw(st.lists(prog, min_size=2, max_size=4)),
             "ping": draw(st.booleans()),
             "start_round": draw(st.sampled_from([0, 1, 2, 2, 2])),
@@ -242,7 +261,7 @@ def case_strategy(tier):
 
 
 def _enum_basic():
-    for variant in ("core", "proto"):
+    for variant in ("core", "proto", "bare"):
         for start_round in (0, 1, 2):
             for choices in ([], [1, 0, 2, 1, 3, 0, 2] * 30, [2, 1] * 100):
                 yield {"sub": "senders", "variant": variant, "tasks": [[["iq", 1], ["message", 300]], [["receipt", 1], ["message", 3000]],
@@ -250,11 +269,25 @@ def _enum_basic():
                        "ping": variant == "proto", "start_round": start_round, "choices": choices}
 
 
+def _enum_login_preemption_sweep():
+    """every single preemption point of a login during which two senders are already waiting (they start with the connect): the
+    running thread continues except at one yield point, where another ready thread takes over"""
+    for variant in ("core", "bare"):
+        base = {"sub": "senders", "variant": variant, "tasks": [[["iq", 1]], [["message", 300]]], "ping": False, "start_round": 0,
+                "choices": []}
+        probe = run_case(dict(base))
+        steps = (probe.info or {}).get("steps", 300)
+        for i in range(steps + 1):
+            for sel in (0, 1, 2, 3):      # net thread, two senders, handshake worker: any of the others takes over
+                yield dict(base, preempt=[[i, sel]])
+
+
 def plan(tier):
     quick = tier == "quick"
     return {
         "shards": 16,
-        "enumerations": [("basic", _enum_basic)],
+        "enumerations": [("basic", _enum_basic), ("login_preemption_sweep", _enum_login_preemption_sweep)],
+        "exhaustive": ["login_preemption_sweep"],
         "strategies": [("schedules", case_strategy(tier), 150 if quick else 10000)],
         "shrink": "ddmin",
         "budget_s": 150 if quick else 1800,
